@@ -224,8 +224,31 @@ def ob_entry_resolve_options_refines(vc):
         vc.check(o1.value.options_resolved, "SOMEIPSDEntry.resolve_options.result_is_resolved")
 
 
+def ob_entry_codec_history(vc):
+    """the entry codec after earlier use: calls in a row (symbolically two of one kind,
+    natively three of any mix of build and parse) each refine the spec for their own
+    argument -- nothing is carried from one call to the next.  Natively this is the search
+    that decides when the codec is found to keep state between calls (global frame)."""
+    kind = vc.choice("kind", ("build", "parse"))
+    k = 0
+    for name in ("a", "b", "c") if vc.native else ("a", "b"):
+        which = vc.choice(name + ".kind", ("build", "parse")) if vc.native else kind
+        if which == "build":
+            e = gen_wire_entry(vc, name + ".e", fits=True)
+            vc.assume(e.num_options_1 <= 15 and e.num_options_2 <= 15)
+            vc.same_outcome(vc.outcome(vc.body(H.SOMEIPSDEntry.build), e), vc.outcome(entry_build, e), "history[" + str(k) + "].SOMEIPSDEntry.build.refines")
+        else:
+            buf = vc.bytes(name + ".buf")
+            n = vc.int(name + ".num_options", 0, None)
+            vc.same_outcome(
+                vc.outcome(vc.body(H.SOMEIPSDEntry.parse), buf, n), vc.outcome(entry_parse, H.SOMEIPSDEntry, buf, n), "history[" + str(k) + "].SOMEIPSDEntry.parse.refines"
+            )
+        k += 1
+
+
 ENTRY_REFINES = [
     ob_entry_build_refines,
+    ob_entry_codec_history,
     ob_entry_build_resolved_refused,
     ob_entry_parse_refines,
     ob_entry_properties_refine,
